@@ -30,6 +30,11 @@ use crate::{
     waker_queue::{WakerInterest, WakerQueue},
 };
 
+#[cfg(actix_net_verif)]
+pub(crate) mod verif {
+    include!(concat!(env!("ACTIX_NET_VERIF_DIR"), "/worker_verif.rs"));
+}
+
 /// Stop worker message. Returns `true` on successful graceful shutdown
 /// and `false` if some connections still alive when shutdown execute.
 pub(crate) struct Stop {
